@@ -17,7 +17,7 @@ from harness.tlc import make_cfg, run_tlc
 
 ALPHA = {97, 32, 34, 39, 38, 60, 91, 93, 233}  # a space " ' & < [ ] e-acute
 EXTRA = ["x y", 'say "hi"', "it's", 'both \' and "', "a&b", "<tag>", "[1]", "été", "中文", "a=b", "a/b", '""', "'", '"', "\U0001F600", "a" * 40 + '"',
-         "0", "1", "2024", "x' or '1'='1"]     # a name made of digits is a name, not a position; a name is never query syntax
+         "0", "1", "2024", "x' or '1'='1", "o'.clock", "a'.b'.c", "q''.r", "dot.ted", ".lead", "x.'y", "$A.$B", "end'"]     # a name made of digits is a name, not a position; a name is never query syntax
 
 
 STYLE_OF: dict = {}     # table style name -> the table it was given to
@@ -64,6 +64,25 @@ def entry_points():
     eps["get_link(name=)"] = (lambda doc, n: para(doc).append(Link("http://example.org/", name=n, text="l")), lambda doc, n: [doc.body.get_link(name=n)], lambda e: e.name)
     eps["get_variable_set(name)"] = (lambda doc, n: para(doc).append(VarSet(n, value=1)), lambda doc, n: [doc.body.get_variable_set(n)], lambda e: e.name)
     eps["get_user_defined(name)"] = (lambda doc, n: para(doc).append(UserDefined(n, value=1)), lambda doc, n: [doc.body.get_user_defined(n)], lambda e: e.name)
+    # what lies between two marks of a name is found through the name as well
+    def between(getter, reader, want):
+        def lookup(doc, n):
+            el = getter(doc, n)
+            if el is None:
+                return [None]
+            got = reader(el)
+            if got != want:
+                raise ValueError(f"content between the marks: {got!r}, wanted {want!r}")
+            return [el]
+        return lookup
+
+    ref_store = lambda doc, n: para(doc).set_reference_mark(n, position=(2, 6))  # noqa: E731
+    eps["ReferenceMarkStart.referenced_text()"] = (ref_store, between(lambda d, n: d.body.get_reference_mark_start(name=n), lambda e: e.referenced_text(), "me t"), lambda e: e.name)
+    eps["ReferenceMarkEnd.referenced_text()"] = (ref_store, between(lambda d, n: d.body.get_reference_mark_end(name=n), lambda e: e.referenced_text(), "me t"), lambda e: e.name)
+    eps["ReferenceMarkStart.get_referenced()"] = (ref_store, between(lambda d, n: d.body.get_reference_mark_start(name=n), lambda e: str(e.get_referenced()).strip(), "me t"), lambda e: e.name)
+    eps["Annotation.get_annotated()"] = (lambda doc, n: para(doc).insert_annotation(Annotation("remark", creator="c", name=n), position=(2, 6)),
+                                         between(lambda d, n: d.body.get_annotation(name=n), lambda e: e.get_annotated(as_text=True).strip(), "me t"), lambda e: e.name)
+
     def styled_table_store(doc, n):
         k = len(STYLE_OF)
         sname = f"verif_ts{k}"
